@@ -479,11 +479,19 @@ class BinTableNumpy(AbstractBinTable):
         return full_ar[flg_any]
 
     def to_list(self) -> List[List[bool]]:
-        return self.data.tolist()
+        return np.asarray(self.data).tolist()
 
     @staticmethod
     def _transform_data_fromlists(data: List[List[bool]]) -> npt.NDArray[bool]:
         return np.array(data)
+
+    def _get_subtable(self, row_slicer: List[int] or slice, column_slicer: List[int] or slice or None) \
+            -> 'BinTableNumpy':
+        if isinstance(row_slicer, list) and isinstance(column_slicer, list):
+            # two index lists select the cross product of rows and columns (as in the other backends),
+            # not numpy's pairwise fancy indexing
+            return self.__class__(self.data[np.ix_(row_slicer, column_slicer)])
+        return super(BinTableNumpy, self)._get_subtable(row_slicer, column_slicer)
 
     def _validate_data(self, data: npt.NDArray[bool]) -> bool:
         if len(data) == 0:
